@@ -569,6 +569,34 @@ pub fn plan_for(property: &str, seed: u64) -> Plan {
                         action,
                     });
                 }
+                // half of the plans: corrupted copies of client datagrams from ever new spoofed
+                // addresses, interleaved with the genuine traffic, and one NAT rebinding of the
+                // genuine client (packets that fail authentication must not use up path state)
+                if r.chance(1, 2) {
+                    plan.faults.push(Fault {
+                        when: When::Window { dir: Some(Dir::C2S), from_us: 0, to_us: u64::MAX, permille: r.pick(&[50u32, 150, 400]), key: r.next() },
+                        action: Action::SpoofedCorrupt { bits: (0..r.range(1, 3)).map(|_| 64 + r.below(4000) as u32).collect() },
+                    });
+                    plan.cfg.server.limits.migration = true;
+                    plan.cfg.client.limits.migration = true;
+                    plan.cfg.nat_keeps_old_mapping = true;
+                    for c in plan.conns.iter_mut() {
+                        // after the handshake (a rebinding during the handshake legitimately kills
+                        // it), with application traffic afterwards so that the new path is learnt
+                        let t = c.start_us + r.pick(&[2_000_000u64, 3_000_000, 5_000_000]) + r.below(500_000);
+                        c.rebinds = vec![t];
+                        if let Some(s) = c.streams.first_mut() {
+                            s.open_delay_us = t - c.start_us + 300_000;
+                            s.fwd.total = s.fwd.total.max(2_000);
+                            s.fwd.end = SendEnd::Finish;
+                        }
+                        c.close = CloseSpec::AfterAll { by: Role::Client, code: 9 };
+                        c.keep_alive = true;
+                    }
+                    // the idle period before the late stream must not end the connection
+                    plan.cfg.client.limits.idle_timeout_ms = plan.cfg.client.limits.idle_timeout_ms.max(30_000);
+                    plan.cfg.server.limits.idle_timeout_ms = plan.cfg.server.limits.idle_timeout_ms.max(30_000);
+                }
                 // unattributable garbage, also spoofed from the genuine peer address
                 for _ in 0..r.below(12) {
                     plan.attacker.push(AttackerDatagram {
